@@ -23,7 +23,7 @@ fn guard<T>(rep: &mut Report, key: &str, input: &str, f: impl FnOnce() -> T) -> 
 }
 
 /// independent reading of the fixed header: (bytes of header, remaining length) or None if incomplete/overlong
-fn frame_extent(b: &[u8]) -> Option<(usize, usize)> {
+pub fn frame_extent(b: &[u8]) -> Option<(usize, usize)> {
     if b.is_empty() {
         return None;
     }
@@ -221,12 +221,79 @@ pub fn c02_oversize(rep: &mut Report) {
     let _ = v3::Packet::Pingreq;
 }
 
+/// C02: v5 property sections whose LENGTH FIELD sits at each width boundary (user properties with
+/// shared Arc<String>s, so a 2 MiB section costs a few hundred KB of memory), through every property
+/// struct's own Encodable impl, the enclosing body and the whole packet.
+pub fn c02_property_boundaries(rep: &mut Report) {
+    use mqtt_proto::{v5, Encodable, Pid};
+    use std::convert::TryFrom;
+    use std::sync::Arc;
+    fn users(total: usize) -> Vec<v5::UserProperty> {
+        // a list of user properties whose encoded size (1 + 2 + n + 2 + v each) is exactly `total` (>= 5)
+        let mut out = Vec::new();
+        let mut left = total;
+        let big = Arc::new("a".repeat(65535));
+        while left >= 5 {
+            let take = left.min(5 + 2 * 65535);
+            let rest = left - take;
+            let take = if rest > 0 && rest < 5 { take - 5 } else { take };
+            let payload = take - 5;
+            let n = payload.min(65535);
+            let v = payload - n;
+            let name = if n == 65535 { big.clone() } else { Arc::new("a".repeat(n)) };
+            let value = if v == 65535 { big.clone() } else { Arc::new("a".repeat(v)) };
+            out.push(v5::UserProperty { name, value });
+            left -= take;
+        }
+        out
+    }
+    for target in [126usize, 127, 128, 129, 16382, 16383, 16384, 16385, 2097150, 2097151, 2097152, 2097153, 4194303, 4194304] {
+        let up = users(target);
+        let section: usize = up.iter().map(|u| 5 + u.name.len() + u.value.len()).sum();
+        let input = format!("v5 property section of exactly {} bytes ({} user properties)", section, up.len());
+        let mut check = |what: &str, written: usize, reported: usize| {
+            rep.cases += 1;
+            if written != reported {
+                rep.fail("property-section-width", input.clone(), format!("{}: wrote {} bytes, reports {}", what, written, reported));
+            }
+        };
+        let props = v5::PubackProperties { reason_string: None, user_properties: up.clone() };
+        let mut buf = Vec::new();
+        props.encode(&mut buf).unwrap();
+        check("PubackProperties", buf.len(), props.encode_len());
+        let pp = v5::PublishProperties { user_properties: up.clone(), ..Default::default() };
+        let mut buf = Vec::new();
+        pp.encode(&mut buf).unwrap();
+        check("PublishProperties", buf.len(), pp.encode_len());
+        let cp = v5::ConnackProperties { user_properties: up.clone(), ..Default::default() };
+        let mut buf = Vec::new();
+        cp.encode(&mut buf).unwrap();
+        check("ConnackProperties", buf.len(), cp.encode_len());
+        let p = v5::Packet::Puback(v5::Puback { pid: Pid::try_from(1).unwrap(), reason_code: v5::PubackReasonCode::Success, properties: props });
+        match catch_unwind(AssertUnwindSafe(|| (p.encode().map(|v| v.as_ref().to_vec()), p.encode_len()))) {
+            Ok((Ok(e), Ok(l))) => {
+                check("Packet::Puback total", e.len(), l);
+                match frame_extent(&e) {
+                    Some((h, rl)) if h + rl == e.len() => {}
+                    other => rep.fail("property-section-width", input.clone(), format!("fixed header says {:?} for {} bytes", other, e.len())),
+                }
+                // and it must decode back (strict decoder)
+                match V5::poll(&e, vec![], Term::Eof).res {
+                    Ok((t, _, q)) if q == p && t == e.len() => {}
+                    other => rep.fail("property-section-width", input.clone(), format!("strict decoder on the encoding gave {:?}", other.map(|x| x.0))),
+                }
+            }
+            other => rep.fail("property-section-width", input.clone(), format!("encode/encode_len gave {:?}", other.map(|(a, b)| (a.map(|e| e.len()), b)))),
+        }
+    }
+}
+
 pub fn c02_boundary(rep: &mut Report) {
     use bytes::Bytes;
     use mqtt_proto::{v3, QosPid, TopicName};
     use std::convert::TryFrom;
     // remaining length exactly at each width boundary, and the first refused size
-    for target in [127usize, 128, 16383, 16384, 2097151, 2097152, 268435455, 268435456] {
+    for target in [127usize, 128, 16383, 16384, 2097151, 2097152, 268435450, 268435455, 268435456] {
         let payload = vec![0u8; target - 3];
         let p = v3::Packet::Publish(v3::Publish { dup: false, retain: false, qos_pid: QosPid::Level0, topic_name: TopicName::try_from("t".to_string()).unwrap(), payload: Bytes::from(payload) });
         rep.cases += 1;
@@ -389,6 +456,8 @@ pub fn sched_text(s: &[Sched]) -> String {
     s.iter()
         .map(|x| match x {
             Sched::Chunk(n) => format!("c{}", n),
+            Sched::InitChunk(n) => format!("i{}", n),
+            Sched::Rest(n) => format!("then<={}", n),
             Sched::Pending => "p".into(),
             Sched::PendingDrop => "d".into(),
         })
@@ -548,6 +617,8 @@ pub fn c09<F: Fam>(rep: &mut Report, p: &F::P, rng: &mut Rng, faults: bool) {
                 2 => (0..40).map(|_| if rng.chance(1, 3) { WItem::Pending } else { WItem::Accept(1 + rng.below(7) as usize) }).collect(),
                 _ => vec![WItem::Pending, WItem::Accept(enc.len() / 2 + 1), WItem::Pending, WItem::Pending],
             };
+            // every sink in both flavours: plain, and gathering (write_vectored applied to the concatenation)
+            let script: Vec<WItem> = if rng.chance(1, 2) { std::iter::once(WItem::Gather).chain(script.into_iter()).collect() } else { script };
             match guard(rep, "encode-panic", &input, || F::encode_async(p, script.clone())) {
                 Some((Ok(()), w)) if w == enc => {}
                 Some((r, w)) => rep.fail("encode-async-differs", format!("enca {} {:?} {}", F::NAME, script, F::show(p)), format!("encode_async gave {:?} and wrote {} (encode() gives {})", r, hex(&w), hex(&enc))),
@@ -556,9 +627,16 @@ pub fn c09<F: Fam>(rep: &mut Report, p: &F::P, rng: &mut Rng, faults: bool) {
         }
         // streaming body encoder into a sink that takes 1..k bytes at a time
         let script: Vec<WItem> = (0..60).map(|_| WItem::Accept(1 + rng.below(5) as usize)).collect();
-        if let Some(Some((r, w, _))) = guard(rep, "encode-panic", &input, || F::body_stream(p, script)) {
-            if r.is_err() || w[..] != enc[header_len(enc.len())..] {
-                rep.fail("body-stream-differs", input.clone(), format!("Encodable::encode of the body into a chunking sink wrote {} ; packet body is {}", hex(&w), hex(&enc[header_len(enc.len())..])));
+        for gather in [false, true] {
+            let script: Vec<WItem> = if gather { std::iter::once(WItem::Gather).chain(script.iter().cloned()).collect() } else { script.clone() };
+            if let Some(Some((r, w, _))) = guard(rep, "encode-panic", &input, || F::body_stream(p, script)) {
+                if r.is_err() || w[..] != enc[header_len(enc.len())..] {
+                    rep.fail(
+                        "body-stream-differs",
+                        input.clone(),
+                        format!("Encodable::encode of the body into a chunking {}sink wrote {} ; packet body is {}", if gather { "GATHERING (write_vectored) " } else { "" }, hex(&w), hex(&enc[header_len(enc.len())..])),
+                    );
+                }
             }
         }
     } else {
